@@ -179,6 +179,9 @@ func (p *pathInfo) resolve(v ssa.Value) ssa.Value {
 				continue
 			}
 		}
+		if k := tableByteConst(v); k != nil {
+			return k
+		}
 		phi, ok := v.(*ssa.Phi)
 		if !ok || p == nil {
 			return v
@@ -793,4 +796,113 @@ func sliceIsWholeArray(x *ssa.Slice, al *ssa.Alloc) bool {
 		return ok && k.Value != nil && k.Value.Kind() == constant.Int && k.Int64() == want
 	}
 	return isK(x.Low, 0) && isK(x.High, arr.Len()) && isK(x.Max, arr.Len())
+}
+
+// tableByteConst: v is the value looked up in a package-level map[K]byte that is filled with
+// constants by the package initialiser and never updated elsewhere, and all of whose values lie
+// in one block of sixteen (the condition-code opcodes 70..7F, …): a representative constant (the
+// smallest value). The shape rules need the length and the class of such a byte, not the row;
+// the rows are compared with their oracle by the table rules.
+var tableByteCache = map[*ssa.Global]*ssa.Const{}
+
+func tableByteConst(v ssa.Value) *ssa.Const {
+	if ex, ok := v.(*ssa.Extract); ok && ex.Index == 0 {
+		v = ex.Tuple
+	}
+	lk, ok := v.(*ssa.Lookup)
+	if !ok {
+		return nil
+	}
+	ld, ok := lk.X.(*ssa.UnOp)
+	if !ok || ld.Op != token.MUL {
+		return nil
+	}
+	g, ok := ld.X.(*ssa.Global)
+	if !ok || g.Pkg == nil {
+		return nil
+	}
+	if k, ok := tableByteCache[g]; ok {
+		return k
+	}
+	tableByteCache[g] = nil
+	mt, ok := g.Type().(*types.Pointer).Elem().Underlying().(*types.Map)
+	if !ok {
+		return nil
+	}
+	if b, ok := mt.Elem().Underlying().(*types.Basic); !ok || b.Kind() != types.Uint8 {
+		return nil
+	}
+	initFn := g.Pkg.Func("init")
+	if initFn == nil {
+		return nil
+	}
+	var fns []*ssa.Function
+	var add func(f *ssa.Function)
+	add = func(f *ssa.Function) {
+		fns = append(fns, f)
+		for _, a := range f.AnonFuncs {
+			add(a)
+		}
+	}
+	for _, m := range g.Pkg.Members {
+		if f, ok := m.(*ssa.Function); ok {
+			add(f)
+		}
+	}
+	isG := func(x ssa.Value) bool {
+		l, ok := x.(*ssa.UnOp)
+		return ok && l.Op == token.MUL && l.X == ssa.Value(g)
+	}
+	var theMap ssa.Value
+	for _, f := range fns {
+		for _, b := range f.Blocks {
+			for _, in := range b.Instrs {
+				switch x := in.(type) {
+				case *ssa.Store:
+					if x.Addr == ssa.Value(g) {
+						if f != initFn || theMap != nil {
+							return nil
+						}
+						theMap = x.Val
+					}
+				case *ssa.MapUpdate:
+					if isG(x.Map) {
+						return nil // updated through the variable
+					}
+				}
+			}
+		}
+	}
+	mm, ok := theMap.(*ssa.MakeMap)
+	if !ok || mm.Referrers() == nil {
+		return nil
+	}
+	lo, hi, n := int64(256), int64(-1), 0
+	for _, r := range *mm.Referrers() {
+		switch x := r.(type) {
+		case *ssa.MapUpdate:
+			k, ok := x.Value.(*ssa.Const)
+			if !ok || x.Parent() != initFn {
+				return nil
+			}
+			val := k.Int64()
+			if val < lo {
+				lo = val
+			}
+			if val > hi {
+				hi = val
+			}
+			n++
+		case *ssa.Store:
+		case *ssa.DebugRef:
+		default:
+			return nil
+		}
+	}
+	if n == 0 || lo&^0xF != hi&^0xF {
+		return nil
+	}
+	k := ssa.NewConst(constant.MakeInt64(lo), mt.Elem())
+	tableByteCache[g] = k
+	return k
 }
